@@ -42,7 +42,7 @@ import (
 // addresses.
 type subscriber struct{ id int }
 
-const maxSubs = 8
+const maxSubs = 64
 
 var idents = func() (a [maxSubs]*subscriber) {
 	for i := range a {
@@ -1077,6 +1077,9 @@ func run(c Case, known func(string) bool) (out outcome) {
 	if len(c.Ops) >= 40 {
 		classes["ops>=40"] = true
 	}
+	if nsubs >= 17 {
+		classes["crowd>=17-subscribers"] = true
+	}
 	for _, o := range c.Ops {
 		o.S = ((o.S % nsubs) + nsubs) % nsubs
 		if !inDomain(o) {
@@ -1527,6 +1530,40 @@ func genCase(t *rapid.T) Case {
 	var live []liveSub
 	var retained []string
 	nops := rapid.IntRange(10, 80).Draw(t, "nops")
+	if rapid.IntRange(0, 7).Draw(t, "crowd") == 0 {
+		// crowd: 17-64 subscribers gather on one or two filters (subscriber lists that grow well
+		// beyond their first allocation), then most of them leave in a generated order, with
+		// re-subscriptions and look-ups in between; the ordinary history follows
+		c.Subs = rapid.IntRange(17, maxSubs).Draw(t, "crowdsubs")
+		fs := []string{filter()}
+		if rapid.IntRange(0, 1).Draw(t, "two") == 1 {
+			fs = append(fs, filter())
+		}
+		order := rapid.Permutation(func() (a []int) {
+			for i := 0; i < c.Subs; i++ {
+				a = append(a, i)
+			}
+			return
+		}()).Draw(t, "arrive")
+		for _, s := range order {
+			l := liveSub{s, fs[rapid.IntRange(0, len(fs)-1).Draw(t, "cf")], qos()}
+			c.Ops = append(c.Ops, Op{K: "sub", S: l.s, F: l.f, Q: l.q})
+			live = append(live, l)
+		}
+		leave := rapid.IntRange(c.Subs/2, c.Subs).Draw(t, "leave")
+		for k := 0; k < leave && len(live) > 0; k++ {
+			i := rapid.IntRange(0, len(live)-1).Draw(t, "leavei")
+			l := live[i]
+			c.Ops = append(c.Ops, Op{K: "unsub", S: l.s, F: l.f})
+			live = append(live[:i:i], live[i+1:]...)
+			if rapid.IntRange(0, 5).Draw(t, "back") == 0 {
+				l.q = qos()
+				c.Ops = append(c.Ops, Op{K: "sub", S: l.s, F: l.f, Q: l.q})
+				live = append(live, l)
+			}
+		}
+		nops += len(c.Ops)
+	}
 	for len(c.Ops) < nops {
 		r := rapid.IntRange(0, 99).Draw(t, "op")
 		switch {
